@@ -385,3 +385,23 @@ Definition opsR : EigOps R := {|
   kclose_np := fun a b => Rleb (Rabs (a - b)) (1 / 100000000 + 1 / 100000 * Rabs b)%R;
   ksmall_np := fun a => Rleb (Rabs a) (1 / 100000000)%R
 |}.
+
+(* entry points of the generated case files: the model at the two evaluation instances *)
+Definition chkQ := @check_history Q NumQd opsQ (fun _ _ => O) closeQ.
+Definition chkC := @check_history QC NumQCd opsQC (fun _ _ => O) closeQC.
+Definition of_rowsQ := @of_rows Q NumQd.
+Definition of_rowsC := @of_rows QC NumQCd.
+Definition sortQ_default := @sort_default Q NumQd opsQ.
+Definition sortQ_desc := @sort_desc Q NumQd opsQ.
+Definition sortQ_rev := @sort_rev Q NumQd opsQ.
+Definition sortQ_abs := @sort_abs Q NumQd opsQ.
+Definition sortQ_dist := @sort_dist Q NumQd opsQ.
+Definition sortQ_firstk := @sort_firstk Q NumQd opsQ.
+Definition sortQ_row0 := @sort_row0 Q NumQd opsQ.
+Definition sortC_default := @sort_default QC NumQCd opsQC.
+Definition sortC_desc := @sort_desc QC NumQCd opsQC.
+Definition sortC_rev := @sort_rev QC NumQCd opsQC.
+Definition sortC_abs := @sort_abs QC NumQCd opsQC.
+Definition sortC_dist := @sort_dist QC NumQCd opsQC.
+Definition sortC_firstk := @sort_firstk QC NumQCd opsQC.
+Definition sortC_row0 := @sort_row0 QC NumQCd opsQC.
